@@ -70,6 +70,8 @@ func mkScript(kind string, it, it2 []byte) []byte {
 		return append(s, 0x20, 0x01, 0x02)
 	case "return":
 		return append([]byte{0x6a}, pushOp(it[:9])...)
+	case "emptyscript":
+		return []byte{}
 	}
 	return []byte{0x51}
 }
